@@ -222,8 +222,10 @@ def _rnd_text(rng, name):
             frags.append('${%s}' % rng.choice(POOL))             # cross (or self) reference
         elif r < 0.93:
             frags.append('${%s}' % UNKNOWN)                      # unknown -> empty string
-        elif r < 0.97:
+        elif r < 0.95:
             frags.append('$' + rng.choice(POOL))                 # not of the form ${..}: literal
+        elif r < 0.975:
+            frags.append('{%s}' % rng.choice(POOL))              # literal; completes a reference if a `$` precedes it
         else:
             frags.append('$')
     return ''.join(frags)
@@ -349,8 +351,38 @@ def _zero_cases():
                     n += 1
 
 
+def _rescan_cases():
+    """Values whose expansion yields text that, together with what follows it (or alone), has the form of a
+    reference: a value is expanded in one pass, substituted text is not expanded again."""
+    words = [
+        [('set', None, 'VA', '$', 'hard'), ('set', None, 'VB', '${VA}{VC}', 'soft'), ('set', None, 'VX', '${VB}', 'soft')],
+        [('set', None, 'VA', '${', 'hard'), ('set', None, 'VB', '${VA}VC}', 'soft'), ('set', None, 'VX', '${VB}-${VB}', 'soft')],
+        [('set', 'act', 'VA', '$', 'hard'), ('set', '!act', 'VA', '{', 'hard'), ('set', None, 'VB', '$${VA}{VC}', 'soft')],
+        [('set', None, 'VA', '$', 'hard'), ('set', None, 'VB', '${VA}{VX}|${VA}{VC}', 'soft'), ('unset', None, 'VC')],
+        [('set', None, 'VA', '$', 'naked'), ('set', None, 'VB', '{VC}', 'naked'), ('set', None, 'VX', '${VA}${VB}', 'soft')],
+        [('set', '!act', 'VA', '$', 'hard'), ('envprog', 'non'), ('set', None, 'VX', '${VA}{VB}', 'soft')],
+    ]
+    n = 100000
+    for w in words:
+        for dist in ((0, 0, 0), (0, 1, 2), (0, 0, 3), (1, 2, 3), (2, 2, 2)):
+            placed = []
+            for k, (letter, phi) in enumerate(zip(w, dist)):
+                ins = _instantiate(letter, PHASES[phi], k + 1)
+                if ins is None:
+                    placed = None
+                    break
+                placed.append((PHASES[phi], ins))
+            if not placed:
+                continue
+            n += 1
+            yield {'kind': 'core', 'n': n, 'mode': 'normal', 'initial': {'VC': 'c0'},
+                   'items': _number(_with_probes_everywhere(placed, n)), 'act': {'ccd': None}}
+
+
 def cases(tier, seed):
     for c in _core_cases():
+        yield c
+    for c in _rescan_cases():
         yield c
     for c in _zero_cases():
         yield c
